@@ -26,7 +26,8 @@ pub struct Gate {
     rt: Runtime<NoCtx>,
 }
 
-const EXTRA: [&str; 8] = ["arity", "transpose", "filtermap", "names", "registered", "fmlit-accept", "fmlit-reject", "fmlit-both"];
+const EXTRA: [&str; 9] =
+    ["arity", "transpose", "filtermap", "names", "registered", "fmlit-accept", "fmlit-reject", "fmlit-both", "nomapping"];
 
 /// A handle that exists only to say "the request was accepted".
 struct Never;
@@ -1200,6 +1201,171 @@ fn ro() -> Trk? {
         self.flush(out, m);
         out.sample = Some(J::obj().set("kind", "registered").set("source", src));
     }
+
+    /// Script types the documented mapping gives NO Rust type: records and enums declared
+    /// by the script itself (whatever they are called, in particular when they shadow the
+    /// name of a built-in leaf type or of Option / List / Result / Verdict) and the never
+    /// type `!` at any depth of a signature. A function that mentions one is not
+    /// retrievable under any Rust type; the requests made here are the tempting ones (the
+    /// built-in of the same name, a primitive of the same size, `()` for `!`).
+    fn nomapping(&self, out: &mut CaseOut, args: &Args) {
+        let mut m = Mon::new(args.seed, "nomapping", false);
+        let mut hash = String::new();
+        let mut sources = Vec::new();
+        // -- a script-declared record named like a built-in leaf type ------------------------
+        macro_rules! shadow_leaf {
+            ($($name:literal => $t:ty, $sz:ty);* $(;)?) => {$({
+                let name: &str = $name;
+                // two fields of a type that is not the shadowed one
+                let fty = if name == "i64" { "u16" } else { "i64" };
+                let src = format!(
+                    "record {name} {{ zz_a: {fty}, zz_b: {fty} }}\n\nfn mk(x: {fty}) -> {name} {{\n    {name} {{ zz_a: x, zz_b: x }}\n}}\n\n\
+                     fn take(v: {name}) -> {fty} {{\n    v.zz_a\n}}\n\nfn opt(v: {name}?) -> {fty} {{\n    match v {{\n        Some(w) => w.zz_b,\n        None => 0,\n    }}\n}}\n\n\
+                     fn lst(v: List[{name}]) -> u64 {{\n    v.len()\n}}\n"
+                );
+                hash.push_str(&src);
+                match catch(|| exec::compile(&src, &self.rt)) {
+                    Ok(Ok(mut pkg)) => {
+                        out.tags.push(format!("gate:nomapping:shadow-leaf:{name}"));
+                        macro_rules! req {
+                            ($f:literal, $q:ty, $class:expr) => {{
+                                let g = got(catch(|| pkg.get_function::<$q>($f)), |_f| Box::new(Never));
+                                let what = J::obj().set("function", $f).set("requested", stringify!($q)).set("source", src.as_str());
+                                self.judge(out, &mut m, g, false, &format!("script-record-named-{name}/{}", $class), what, "gate/nomapping", &[], 0);
+                            }};
+                        }
+                        req!("mk", fn($sz) -> $t, "as-builtin-return");
+                        req!("take", fn($t) -> $sz, "as-builtin-parameter");
+                        req!("opt", fn(Option<$t>) -> $sz, "as-builtin-in-option");
+                        req!("lst", fn(List<$t>) -> u64, "as-builtin-in-list");
+                        req!("take", fn(u64) -> $sz, "as-u64");
+                        req!("take", fn(Val<Trk>) -> $sz, "as-registered-type");
+                        req!("take", fn(()) -> $sz, "as-unit");
+                        req!("mk", fn($sz) -> (), "as-unit-return");
+                        sources.push(J::from(src.as_str()));
+                    }
+                    // a tree that refuses the shadowing declaration altogether gives nothing to ask for
+                    Ok(Err(_)) => out.tags.push(format!("gate:nomapping:shadow-leaf-not-declarable:{name}")),
+                    Err(p) => out.viol(format!("gate:compile-{}@nomapping", panic_sig(&p)), format!("compiling a script that shadows `{name}` panicked: {p}"), J::obj().set("source", src.as_str())),
+                }
+            })*};
+        }
+        shadow_leaf! {
+            "Asn" => inetnum::asn::Asn, i64; "IpAddr" => std::net::IpAddr, i64; "Prefix" => inetnum::addr::Prefix, i64; "String" => RotoString, i64;
+            "bool" => bool, i64; "char" => char, i64; "u8" => u8, i64; "u16" => u16, i64; "u32" => u32, i64; "u64" => u64, i64;
+            "i8" => i8, i64; "i16" => i16, i64; "i32" => i32, i64; "i64" => i64, u16; "f32" => f32, i64; "f64" => f64, i64;
+        }
+        // -- a script-declared generic named like a built-in type constructor -----------------
+        let ctor_srcs: [(&str, &str); 4] = [
+            ("List", "record List[T] { first: T, second: T }\n\nfn p(l: List[u32]) -> u32 {\n    l.first\n}\n\nfn o(l: List[u32]?) -> u32 {\n    match l {\n        Some(x) => x.second,\n        None => 0,\n    }\n}\n"),
+            ("Option", "enum Option[T] { Some(T), None }\n\nfn p(l: Option[u32]) -> u32 {\n    match l {\n        Option.Some(x) => x,\n        Option.None => 0,\n    }\n}\n\nfn o(l: u32) -> Option[u32] {\n    Option.Some(l)\n}\n"),
+            ("Result", "enum Result[T, E] { Ok(T), Err(E) }\n\nfn p(l: Result[u32, u32]) -> u32 {\n    match l {\n        Result.Ok(x) => x,\n        Result.Err(y) => y,\n    }\n}\n\nfn o(l: u32) -> Result[u32, u32] {\n    Result.Ok(l)\n}\n"),
+            ("Verdict", "enum Verdict[A, R] { Accept(A), Reject(R) }\n\nfn p(l: Verdict[u32, u32]) -> u32 {\n    match l {\n        Verdict.Accept(x) => x,\n        Verdict.Reject(y) => y,\n    }\n}\n\nfn o(l: u32) -> Verdict[u32, u32] {\n    Verdict.Accept(l)\n}\n"),
+        ];
+        for (name, src) in ctor_srcs {
+            hash.push_str(src);
+            match catch(|| exec::compile(src, &self.rt)) {
+                Ok(Ok(mut pkg)) => {
+                    out.tags.push(format!("gate:nomapping:shadow-constructor:{name}"));
+                    macro_rules! req {
+                        ($f:literal, $q:ty, $class:expr) => {{
+                            let g = got(catch(|| pkg.get_function::<$q>($f)), |_f| Box::new(Never));
+                            let what = J::obj().set("function", $f).set("requested", stringify!($q)).set("source", src);
+                            self.judge(out, &mut m, g, false, &format!("script-type-named-{name}/{}", $class), what, "gate/nomapping", &[], 0);
+                        }};
+                    }
+                    match name {
+                        "List" => {
+                            req!("p", fn(List<u32>) -> u32, "as-builtin-parameter");
+                            req!("o", fn(Option<List<u32>>) -> u32, "as-builtin-in-option");
+                            req!("p", fn(u64) -> u32, "as-u64");
+                        }
+                        "Option" => {
+                            req!("p", fn(Option<u32>) -> u32, "as-builtin-parameter");
+                            req!("o", fn(u32) -> Option<u32>, "as-builtin-return");
+                            req!("p", fn(u64) -> u32, "as-u64");
+                        }
+                        "Result" => {
+                            req!("p", fn(Result<u32, u32>) -> u32, "as-builtin-parameter");
+                            req!("o", fn(u32) -> Result<u32, u32>, "as-builtin-return");
+                            req!("p", fn(Verdict<u32, u32>) -> u32, "as-other-builtin");
+                        }
+                        _ => {
+                            req!("p", fn(Verdict<u32, u32>) -> u32, "as-builtin-parameter");
+                            req!("o", fn(u32) -> Verdict<u32, u32>, "as-builtin-return");
+                            req!("p", fn(Result<u32, u32>) -> u32, "as-other-builtin");
+                        }
+                    }
+                    sources.push(J::from(src));
+                }
+                Ok(Err(_)) => out.tags.push(format!("gate:nomapping:shadow-constructor-not-declarable:{name}")),
+                Err(p) => out.viol(format!("gate:compile-{}@nomapping", panic_sig(&p)), format!("compiling a script that shadows `{name}` panicked: {p}"), J::obj().set("source", src)),
+            }
+        }
+        // -- the never type -----------------------------------------------------------------
+        let never_src = "\
+fn n_opt(x: Option[!]) -> bool {
+    match x {
+        Some(y) => true,
+        None => false,
+    }
+}
+
+fn n_res(x: u32) -> Result[u32, !] {
+    Ok(x)
+}
+
+fn n_res_l(x: u32) -> Result[!, u32] {
+    Err(x)
+}
+
+fn n_list(l: List[!]) -> u64 {
+    l.len()
+}
+
+fn n_ver(x: u32) -> Verdict[u32, !] {
+    Verdict.Accept(x)
+}
+
+fn n_deep(x: Option[List[!]]) -> bool {
+    true
+}
+
+fn unit_control(x: Option[()]) -> Result[u32, ()] {
+    Ok(1)
+}
+";
+        hash.push_str(never_src);
+        match catch(|| exec::compile(never_src, &self.rt)) {
+            Ok(Ok(mut pkg)) => {
+                out.tags.push("gate:nomapping:never".to_string());
+                macro_rules! req {
+                    ($f:literal, $q:ty, $ok:expr, $class:expr) => {{
+                        let g = got(catch(|| pkg.get_function::<$q>($f)), |_f| Box::new(Never));
+                        let what = J::obj().set("function", $f).set("requested", stringify!($q)).set("source", never_src);
+                        self.judge(out, &mut m, g, $ok, &format!("never/{}", $class), what, "gate/nomapping", &[], 0);
+                    }};
+                }
+                req!("unit_control", fn(Option<()>) -> Result<u32, ()>, true, "unit-control");
+                req!("n_opt", fn(Option<()>) -> bool, false, "option-of-never-as-option-of-unit");
+                req!("n_opt", fn(Option<u8>) -> bool, false, "option-of-never-as-option-of-u8");
+                req!("n_opt", fn(()) -> bool, false, "option-of-never-as-unit");
+                req!("n_res", fn(u32) -> Result<u32, ()>, false, "result-err-never-as-unit");
+                req!("n_res", fn(u32) -> Result<u32, u8>, false, "result-err-never-as-u8");
+                req!("n_res_l", fn(u32) -> Result<(), u32>, false, "result-ok-never-as-unit");
+                req!("n_list", fn(List<()>) -> u64, false, "list-of-never-as-list-of-unit");
+                req!("n_list", fn(List<u8>) -> u64, false, "list-of-never-as-list-of-u8");
+                req!("n_ver", fn(u32) -> Verdict<u32, ()>, false, "verdict-reject-never-as-unit");
+                req!("n_deep", fn(Option<List<()>>) -> bool, false, "never-at-depth-2-as-unit");
+                sources.push(J::from(never_src));
+            }
+            Ok(Err(rep)) => out.tags.push(format!("gate:nomapping:never-not-declarable:{}", format!("{rep}").lines().next().unwrap_or("").chars().take(40).collect::<String>())),
+            Err(p) => out.viol(format!("gate:compile-{}@nomapping", panic_sig(&p)), format!("compiling the never-type script panicked: {p}"), J::obj().set("source", never_src)),
+        }
+        out.hash = hash_str(&hash);
+        self.flush(out, m);
+        out.sample = Some(J::obj().set("kind", "nomapping").set("sources", J::Arr(sources)));
+    }
 }
 
 fn g_text(e: &str) -> String {
@@ -1247,6 +1413,7 @@ impl Family for Gate {
                 Some(&"fmlit-accept") => self.fmlit(LitSide::Accept, &mut out, args),
                 Some(&"fmlit-reject") => self.fmlit(LitSide::Reject, &mut out, args),
                 Some(&"fmlit-both") => self.fmlit(LitSide::Both, &mut out, args),
+                Some(&"nomapping") => self.nomapping(&mut out, args),
                 _ => out.skipped = Some("no-such-case".into()),
             }
             if let Some(e) = EXTRA.get(k - n) {
